@@ -214,10 +214,13 @@ fn parse_variable_definition(
     let variable = parse_variable(pairs.next().unwrap(), pc)?;
     let var_type = parse_type(pairs.next().unwrap(), pc)?;
 
-    let directives = parse_opt_directives(&mut pairs, pc)?;
+    // The specification puts the directives after the default value; the
+    // historical order (directives first) is still accepted.
+    let mut directives = parse_opt_directives(&mut pairs, pc)?;
     let default_value = parse_if_rule(&mut pairs, Rule::default_value, |pair| {
         parse_default_value(pair, pc)
     })?;
+    directives.extend(parse_opt_directives(&mut pairs, pc)?);
 
     debug_assert_eq!(pairs.next(), None);
 
